@@ -301,6 +301,17 @@ type collector struct {
 	mu sync.Mutex
 }
 
+// normalise keeps every case decidable: a consumer-side DryUp() that waits for the k-th item would never
+// happen when a scripted failure makes that item unreachable (an open stream then polls for ever), so
+// failure cases dry the stream up from another goroutine instead.
+func normalise(sp *Spec) *Spec {
+	if st := sp.Stream; st != nil && sp.Fault != nil && st.Dry == "inline" {
+		st.Dry, st.DryAfterItems = "async", 0
+		st.DryAtUs = lastPub(sp).Microseconds()/1000*1000 + st.GraceUs/1000*1000 + 500
+	}
+	return sp
+}
+
 func nontrivial(sp *Spec) bool {
 	return sp.nPages() >= 2 || sp.Fault != nil || sp.Stop != nil || sp.isStream()
 }
@@ -360,6 +371,9 @@ func evaluate(r *vrun.Run, sp *Spec, verbose bool) {
 	for _, f := range fs {
 		if f.sig == nil {
 			r.Inconclusive(f.what)
+			if os.Getenv("C19_DEBUG") != "" {
+				fmt.Printf("INCONCLUSIVE %s %s\n", f.what, canon)
+			}
 			continue
 		}
 		w := witness{Spec: sp, Result: trim(res), Source: src.events, Total: src.total, Findings: whats}
@@ -463,8 +477,8 @@ func main() {
 	}
 	r.Extra("systematic_cases", map[string]int{"plain": len(plain), "stream_available": len(sys)})
 	// random
-	nPlain := r.Pick(2500, 150_000)
-	nStream := r.Pick(2500, 150_000)
+	nPlain := r.Pick(2500, 300_000)
+	nStream := r.Pick(2500, 300_000)
 	for i := 0; i < nPlain; i++ {
 		cases = append(cases, genPlain(r.Rand("c19-plain", i), []string{"static", "dynamic"}[i%2]))
 	}
@@ -472,10 +486,10 @@ func main() {
 		cases = append(cases, genStream(r.Rand("c19-stream", i), []string{"sstatic", "sdynamic"}[i%2]))
 	}
 
-	vrun.Parallel(len(cases), 0, func(i int) { evaluate(r, cases[i], false) })
+	vrun.Parallel(len(cases), 0, func(i int) { evaluate(r, normalise(cases[i]), false) })
 
-	r.Require("evaluations", int64(r.Pick(8000, 300_000)))
-	r.Require("distinct_nontrivial", int64(r.Pick(5000, 200_000)))
+	r.Require("evaluations", int64(r.Pick(8000, 600_000)))
+	r.Require("distinct_nontrivial", int64(r.Pick(5000, 500_000)))
 	for _, k := range []string{"cases_static", "cases_dynamic", "cases_sstatic", "cases_sdynamic"} {
 		r.Require(k, 1000)
 	}
@@ -483,6 +497,7 @@ func main() {
 	r.Require("decided_complete", 1000)
 	r.Require("decided_stream-complete", 500)
 	r.Require("decided_no-end-before-dryup", 500)
+	r.Require("decided_published-before-dryup-yielded", 300)
 	r.Require("decided_grace-elapsed-before-end", 300)
 	r.Require("decided_terminates-after-dryup-grace", 500)
 	r.Require("decided_hasnext-idempotent", 500)
